@@ -48,6 +48,44 @@ PLUMBING = {
 }
 
 
+def depth_counter_field(prog):
+    """the projection (field path below `self`) of the nesting counter: the place inc_depth() adds 1 to - whatever it
+    is called and however it is wrapped (a plain `current_depth: u32`, a newtype `nesting.0`).  None if not found."""
+    b = prog.maybe_body("svgdx::context::TransformerContext::inc_depth")
+    if b is None:
+        return None
+    cands = set()
+    for x, i, st in b.all_stmts():
+        rv = st.get("rv") or {}
+        if rv.get("k") in ("binop", "checked_binop") and str(rv.get("op", "")).startswith("Add"):
+            for u, v in ((rv["a"], rv["b"]), (rv["b"], rv["a"])):
+                if const_int(v) == 1:
+                    pl = op_place(u)
+                    if pl is None:
+                        continue
+                    if not [p_ for p_ in pl[1] if str(p_).startswith(".")]:
+                        ch = b.chase(u)
+                        pl = ch[1] if ch[0] == "place" else pl
+                    proj = tuple(str(p_) for p_ in pl[1] if str(p_).startswith("."))
+                    # a place reached through a `&mut self.field` handed to a spliced method: prefix the field path
+                    base = pl[0]
+                    for _ in range(6):
+                        if base == 1:
+                            break
+                        d = b.single_def(base)
+                        if d is None or d[1] == R.TERM:
+                            break
+                        rv2 = d[2]
+                        src = P(rv2["place"]) if rv2.get("k") == "ref" else (op_place(rv2.get("op")) if rv2.get("k") in ("use", "cast") else None)
+                        if src is None:
+                            break
+                        proj = tuple(str(p_) for p_ in src[1] if str(p_).startswith(".")) + proj
+                        base = src[0]
+                    if proj and base == 1:
+                        cands.add(proj)
+    return sorted(cands, key=len)[-1] if cands else None
+
+
 def limit_errors_keep_their_variant(prog, chk):
     """a limit error travels up to process_tags as the variant it was raised as: no library function on the way maps
     the error of a call that may carry one (map_err / or_else with a closure that builds another SvgdxError without
@@ -308,8 +346,20 @@ def check_comparison(prog, chk, body, field, variant, bb, idx, stmt, limit_tmp):
         )
     elif field == "depth_limit":
         cpl = body.chase(counter)
-        is_depth = cpl[0] == "place" and cpl[1][1] and cpl[1][1][-1] == ".current_depth"
+        dfield = depth_counter_field(prog)
+        sp_ = R.self_path(body, counter)
+        is_depth = (cpl[0] == "place" and cpl[1][1] and cpl[1][1][-1] == ".current_depth") or (dfield is not None and sp_ == dfield)
+        if is_depth and not (cpl[0] == "place" and cpl[1][1]):
+            cpl = ("place", (1, dfield))
         incs = R.increments_of(body, cpl[1]) if is_depth else []
+        if is_depth and not incs:
+            # the counter lives behind a spliced method's receiver: find the `+ 1` on the same self path
+            for x2, i2, st2 in body.all_stmts():
+                rv2 = st2.get("rv") or {}
+                if rv2.get("k") in ("binop", "checked_binop") and str(rv2.get("op", "")).startswith("Add") and (const_int(rv2.get("b")) == 1 or const_int(rv2.get("a")) == 1):
+                    src2 = rv2["a"] if const_int(rv2.get("b")) == 1 else rv2["b"]
+                    if R.self_path(body, src2) == dfield:
+                        incs.append((x2, i2, st2))
         inc_before = bool(incs) and all(body.dominates(i[0], bb) and (i[0] != bb or i[1] < idx) for i in incs)
         chk.ob(
             is_depth and len(incs) == 1 and inc_before and op == "Gt",
@@ -504,12 +554,16 @@ def depth_pairing(prog, chk):
     chk.floor("A5.depth", n_open, 1, "inc_depth() call site")
     # who may touch the counter: only inc_depth/dec_depth (+ constructor)
     writers = set()
+    dfield = depth_counter_field(prog) or (".current_depth",)
     for body in prog.bodies.values():
-        if R.field_assigns(body, (".current_depth",)):
+        if R.field_assigns(body, (dfield[0],)) or R.field_assigns(body, (".current_depth",)):
             writers.add(body.path)
     allowed = {inc, dec}
     extra = {w for w in writers if w not in allowed and not w.endswith("::default")}
-    chk.ob(
+    if not writers:
+        chk.undecided("A10.depth-writers", "current_depth", "src/context.rs", "no assignment to the nesting counter found under a recognisable field name")
+    else:
+      chk.ob(
         not extra and allowed <= writers,
         "A10.depth-writers",
         "current_depth",
